@@ -239,6 +239,36 @@ func (p *c04) Run(rec *core.Recorder, seed uint64, idx int, tier string) {
 		p.stray(rec, r)
 		return
 	}
+	if idx%24 == 15 {
+		// literal text in the body of a loop appears once per iteration, however much the loop writes in all (tens of
+		// kilobytes here), before and after other text
+		seg := c04Segment(r)
+		for c04BadSegment(seg, true) || seg == "" {
+			seg = strings.NewReplacer("{{", "{ ", "{%", "{ ", "{#", "{ ").Replace(seg) + "row."
+			if strings.HasSuffix(seg, "{") || strings.HasSuffix(seg, "\\") {
+				seg += "."
+			}
+		}
+		n := 40000/len(seg) + r.Range(1, 50)
+		if n > 4000 {
+			n = 4000
+		}
+		form := r.Intn(3)
+		src := "head|" + []string{"{% for i in range(1, " + fmt.Sprint(n) + ") %}", "{% for i in 1..1 %}", "{% for k, i in range(1, " + fmt.Sprint(n) + ") %}"}[form]
+		if form == 1 {
+			src = "head|{% for j in [1, 2] %}{% for i in range(1, " + fmt.Sprint(n/2+1) + ") %}"
+		}
+		src += seg + "{% endfor %}"
+		want := "head|" + strings.Repeat(seg, n)
+		if form == 1 {
+			src += "{% endfor %}"
+			want = "head|" + strings.Repeat(seg, 2*(n/2+1))
+		}
+		src, want = src+"|tail", want+"|tail"
+		rec.Count("big-loop-templates", 1)
+		p.checkExact(rec, "big-loops", src, want, true)
+		return
+	}
 	switch idx % 6 {
 	case 4:
 		p.comment(rec, r)
